@@ -27,8 +27,8 @@ package deb
 //@     invariant [C07 C11 C12] plan-still-fresh: nfpm.SpecPlanOK(info.Contents, !old(info.MTime.IsZero()))
 //
 //@ inline func conffiles(info *nfpm.Info) (result []byte)
-//@   loop 0
-//@     invariant true
+//@   loop 0 (confs []string)
+//@     invariant [C11 C12] accumulator-fresh: confs == nil || fresh(confs)
 //
 //@ inline func createTriggers(info *nfpm.Info) (result []byte)
 //@   loop 1
@@ -60,3 +60,6 @@ package deb
 //@   ensures [C15 C14 C02] name: result == old(info.Name) + "_" + debVersion(old(info.Version), old(info.Prerelease), old(info.VersionMetadata), old(info.Release)) + "_" + archOf(old(info.Arch), old(info.Deb.Arch)) + ".deb"
 //@   ensures [C15] extension: strings.HasSuffix(result, d.ConventionalExtension())
 //@   modifies [C11 C12] &info.Arch
+//
+//@ inline func withChangelogIfRequested(info *nfpm.Info) (result *nfpm.Info)
+//@   assume [C11 C12] appended-entry-lands-outside-every-view: len(info.Contents) == cap(info.Contents)
